@@ -251,6 +251,11 @@ def observe(case, cfg=None, wd=None):
             base._exec_suite = orig
         if fobj is not None:
             fobj.close()
+        try:
+            # keys of the loader's cache, most recently used first (LRUCache.__iter__)
+            obs['cache'] = [[os.path.basename(k), os.path.isabs(k)] for k in loader._cache]
+        except Exception:  # noqa
+            obs['cache'] = None
         if own_wd:
             wd.close()
     obs['phase'] = phase
@@ -729,6 +734,23 @@ def compare_lru(pairs, res):
                   and model['sentinel'] == real['sentinel'] and model['out'] == real['out'])
         if len(set(case.get('history', []))) + 1 > case['cache']:
             res.count('lru:more names than the bound')
+        # the CONTENTS of the cache at the end (keys, most recently used first)
+        if ok and obs.get('cache') is not None and 'diverge' not in model.get('errs', []):
+            try:
+                mc = [[int(e[0]), e[1] == 'T'] for e in m[2]]
+            except Exception:  # noqa
+                mc = None
+            rc = [[idx.get(k[0], -1), bool(k[1])] for k in obs['cache']]
+            mode = 'reload' if case['cfg']['auto_reload'] else 'inline'
+            if mc == rc:
+                res.count('lru-cache:%s:same keys, same order' % mode)
+            elif mc is not None and sorted(mc) == sorted(rc):
+                res.count('lru-cache:%s:same keys, other order' % mode)
+            else:
+                res.count('lru-cache:%s:other keys' % mode)
+            if mc != rc and case['cfg']['auto_reload']:
+                ok = False
+                model['cache'], real['cache'] = mc, rc
         if not ok:
             res.disagreements.append({'stream': 'lru-history', 'case': case, 'model': json.dumps(model, sort_keys=True),
                                       'real': json.dumps(real, sort_keys=True)})
